@@ -43,7 +43,8 @@ Inductive fault :=
 | FMkdir                  (* creating the parent directories in the cache store fails *)
 | FCreate                 (* OpenFile(create|truncate) in the cache store fails *)
 | FWrite (k : nat)        (* the k-th Write fails, having stored [part] bytes of its chunk *)
-| FClose.                 (* Close of the cached copy fails *)
+| FClose                  (* Close of the cached copy fails *)
+| FSrcOpen.               (* the first Open of the source made by this call fails *)
 
 (* chunks of size c (c > 0 expected) *)
 Fixpoint chunks (fuel c : nat) (d : list N) : list (list N) :=
@@ -84,7 +85,10 @@ Inductive oresult :=
    cache store lets the partial copy be removed, [ft]/[part] the fault of this call *)
 Definition copen (src : source) (retain : str -> bool) (c : nat) (can_remove : bool)
                  (ft : fault) (part : nat) (st : cstate) (n : str) : cstate * oresult :=
-  (* fs.Stat(name): memoised FileInfo, else one Open of the source *)
+  (* fs.Stat(name): memoised FileInfo, else one Open of the source -- which may be the one that fails *)
+  if negb (mem_str n (cs_info st)) && match ft with FSrcOpen => true | _ => false end then
+    (mkC (cs_cache st) (cs_incomplete st) (cs_info st) (ESrcOpen n :: cs_log st), OErr)
+  else
   let st :=
     if mem_str n (cs_info st) then st
     else mkC (cs_cache st) (cs_incomplete st)
@@ -101,6 +105,7 @@ Definition copen (src : source) (retain : str -> bool) (c : nat) (can_remove : b
       if negb (retain n) then (st1, Served data)
       else
         match ft with
+        | FSrcOpen => (st1, OErr)   (* the source cannot be opened: nothing is touched, marks included *)
         | FMkdir | FCreate =>
           (* nothing was written; Remove of a missing file is fine *)
           (st1, OErr)
